@@ -853,11 +853,11 @@ def regenerate(ctx):
 
 def run(ctx):
     tables_stream(ctx)
-    sizes = list(range(1, 10))
+    sizes = list(range(1, 10)) if ctx.quick else list(range(1, 14))
     fd_matrix_stream(ctx, sizes, EXACT_DXC if not ctx.quick else EXACT_DXC[:2])
-    fd_vector_stream(ctx, [2, 3, 4, 5, 6, 8, 11], 1 if ctx.quick else 4)
+    fd_vector_stream(ctx, [2, 3, 4, 5, 6, 8, 11], 1 if ctx.quick else 8)
     fd_general_stream(ctx, [2, 3, 5, 7] if ctx.quick else [2, 3, 4, 5, 6, 7, 10])
-    ops_stream(ctx, 1 if ctx.quick else 6)
+    ops_stream(ctx, 1 if ctx.quick else 12)
     ops_matrix_stream(ctx, [(2,), (3,), (2, 3)] if ctx.quick else
                       [(2,), (3,), (4,), (5,), (2, 2), (2, 3), (3, 2), (3, 4), (2, 2, 2),
                        (2, 3, 2), (3, 2, 3)])
